@@ -286,7 +286,7 @@ func (fc *FnCtx) loadStructObj(ref *Term, t types.Type, st *State) *Term {
 		args = append(args, fc.loadObjField(ref, t, i, st))
 	}
 	if len(args) == 0 {
-		return fc.tb.Const("mk_"+srt, srt)
+		return fc.tb.App("mk_"+srt, srt) // nullary constructor of the datatype (not a declared constant)
 	}
 	return fc.tb.App("mk_"+srt, srt, args...)
 }
